@@ -578,8 +578,12 @@ def main_check(mod):
     for c in cases:
         tags[c.tag] = tags.get(c.tag, 0) + 1
     outcome_kinds = {}
+    okind = getattr(mod, "outcome_kind", None)
     for r in impl:
-        k = r.split(" ")[0]
+        k = okind(r) if okind else r.split(" ")[0]
+        k = k[:24]
+        if k not in outcome_kinds and len(outcome_kinds) >= 40:
+            k = "(other)"
         outcome_kinds[k] = outcome_kinds.get(k, 0) + 1
     distinct = len(set(l for l, r in zip(lines, impl) if r != "SKIP" and getattr(mod, "nontrivial", lambda l, r: True)(l, r)))
     samples = []
